@@ -23,9 +23,13 @@ def run_property(prop: str, repo: Repo, tier: str, exc_mode: str, cg=None) -> Ch
         mod.check(ck)
     except AnalysisError as e:
         ck.analysis_errors.append(str(e))
-    if ck.analysis_errors and not any(o.verdict == "violation" for o in ck.obs):
-        # nothing was decided against the tree and part of the analysis could not run: fail closed
-        raise AnalysisError("; ".join(ck.analysis_errors))
+    if ck.analysis_errors:
+        from .report import split_known
+        _known, new = split_known(ck)
+        if not new:
+            # nothing NEW was decided against the tree (listed known findings do not count) and part of the
+            # analysis could not run: fail closed
+            raise AnalysisError("; ".join(ck.analysis_errors))
     return ck
 
 
